@@ -262,9 +262,9 @@ fn c02(tier: &str) -> i32 {
     // uninterrupted part: the C01 space; interrupted part: every cut-off index on the C05 space
     let mut plans = plans_c01(th, Mode::Plain);
     plans.extend(plans_c05(th, &full, &c3));
-    let (agg, scopes, complete) = run_plans(&rep, &["C02"], &plans, deadline(&rep, 55, 1500));
+    let (agg, scopes, complete) = run_plans(&rep, &["C02"], &plans, deadline(&rep, 36, 1500));
     let (par_cov, par_ok) = crate::sched::c02_parallel_part(&rep);
-    let (all_cov, all_ok, _, _) = crate::sched::all_part(&rep, "C02", crate::sched::CutMode::None, false, false, 8.0, 300.0);
+    let (all_cov, all_ok, _, _) = crate::sched::all_part(&rep, "C02", crate::sched::CutMode::None, false, false, 6.0, 300.0);
     let par_ok = par_ok && all_ok;
     let mut cov_extra = json!({"parallel_part": par_cov, "all": all_cov});
     let _ = &mut cov_extra;
